@@ -442,13 +442,15 @@ macro_rules! proofs {
     )*};
 }
 
-// @harness c14_gcdx_a12 tier=quick unwind=8 block=64 mem=8 timeout=1200
-// @harness c14_gcdx_a12_reach tier=quick unwind=8 block=64 mem=8 timeout=1200 twin
-// @harness c14_gcdx_a40 tier=thorough unwind=11 block=64 mem=8 timeout=3000
-// @harness c14_diag_1x2_e3 tier=quick unwind=6 block=64 mem=11 timeout=1200
-// @harness c14_diag_2x1_e3 tier=quick unwind=6 block=64 mem=8 timeout=1200
-// @harness c14_diag_2x2_e2 tier=quick unwind=7 block=64 mem=35 timeout=3600
-// @harness c14_diag_2x2_e2_reach tier=quick unwind=7 block=64 mem=25 timeout=1200 twin
+// @harness c14_gcdx_a12 tier=quick unwind=8 block=64 mem=6 timeout=1200
+// @harness c14_gcdx_a12_reach tier=quick unwind=8 block=64 mem=6 timeout=1200 twin
+// @harness c14_gcdx_a40 tier=thorough unwind=11 block=64 mem=8 timeout=3000 stretch
+// @harness c14_diag_1x2_e3 tier=quick unwind=6 block=64 mem=8 timeout=1200
+// @harness c14_diag_2x1_e3 tier=quick unwind=6 block=64 mem=6 timeout=1200
+// @harness c14_diag_2x2_e1 tier=quick unwind=6 block=64 mem=20 timeout=1500
+// @harness c14_diag_2x2_e1_reach tier=quick unwind=6 block=64 mem=12 timeout=1500 twin
+// @harness c14_diag_2x2_e2 tier=thorough unwind=7 block=64 mem=24 timeout=3600
+// @harness c14_diag_2x2_e2_reach tier=thorough unwind=7 block=64 mem=17 timeout=1200 twin
 // @harness c14_diag_2x2_e3 tier=thorough unwind=8 block=64 mem=44 timeout=3600 stretch
 // @harness c14_diag_2x2_ut_e6 tier=thorough unwind=11 block=64 mem=46 timeout=3600 stretch
 // @harness c14_diag_2x2_e6 tier=thorough unwind=11 block=64 mem=48 timeout=3600 stretch
@@ -456,21 +458,22 @@ macro_rules! proofs {
 // @harness c14_abinv_diag3_e5 tier=thorough unwind=13 block=256 small=64 mem=48 timeout=3600 stretch
 // @harness c14_diag_2x3_e2 tier=thorough unwind=8 block=64 mem=44 timeout=3600 stretch
 // @harness c14_diag_3x2_e2 tier=thorough unwind=8 block=64 mem=44 timeout=3600 stretch
-// @harness c14_relvec_sums_n2_l3 tier=quick unwind=7 block=256 mem=8 timeout=1200
-// @harness c14_relvec_sums_n2_l3_reach tier=quick unwind=7 block=256 mem=8 timeout=1200 twin
-// @harness c14_relvec_inverse_n2_l2 tier=quick unwind=7 block=256 mem=8 timeout=1200
-// @harness c14_relvec_conj_n2_l2 tier=quick unwind=7 block=256 small=64 mem=28 timeout=3380
-// @harness c14_relvec_product_n2_l2 tier=quick unwind=7 block=256 small=64 mem=17 timeout=1850
-// @harness c14_relvec_rotation_n2_l2 tier=quick unwind=7 block=256 mem=8 timeout=1200
-// @harness c14_relvec_rotation_n2_l2_reach tier=quick unwind=7 block=256 mem=8 timeout=1200 twin
+// @harness c14_relvec_sums_n2_l3 tier=quick unwind=7 block=256 mem=6 timeout=1200
+// @harness c14_relvec_sums_n2_l3_reach tier=quick unwind=7 block=256 mem=6 timeout=1200 twin
+// @harness c14_relvec_inverse_n2_l2 tier=quick unwind=7 block=256 mem=6 timeout=1200
+// @harness c14_relvec_conj_n2_l2 tier=thorough unwind=7 block=256 small=64 mem=20 timeout=3380
+// @harness c14_relvec_product_n2_l2 tier=quick unwind=7 block=256 small=64 mem=11 timeout=2098
+// @harness c14_relvec_rotation_n2_l2 tier=quick unwind=7 block=256 mem=6 timeout=1200
+// @harness c14_relvec_rotation_n2_l2_reach tier=quick unwind=7 block=256 mem=6 timeout=1200 twin
 // @harness c14_relvec_conj_n2_l3 tier=thorough unwind=9 block=256 small=64 mem=40 timeout=3600 stretch
 // @harness c14_relvec_product_n3_l3 tier=thorough unwind=9 block=256 small=64 mem=40 timeout=3600 stretch
-// @harness c14_abinv_degenerate tier=quick unwind=6 block=64 mem=8 timeout=1200
-// @harness c14_abinv_degenerate_reach tier=quick unwind=6 block=64 mem=8 timeout=1200 twin
-// @harness c14_abinv_r1_n1_l3 tier=quick unwind=5 block=256 small=64 mem=8 timeout=1200
-// @harness c14_abinv_r1_n2_l2 tier=quick unwind=5 block=256 small=64 mem=14 timeout=1879
-// @harness c14_abinv_r1_n2_l2_reach tier=quick unwind=5 block=256 small=64 mem=12 timeout=1800 twin
-// @harness c14_abinv_r2_n1_l2 tier=thorough unwind=7 block=256 small=64 mem=30 timeout=3600
+// @harness c14_abinv_degenerate tier=quick unwind=6 block=64 mem=6 timeout=1200
+// @harness c14_abinv_degenerate_reach tier=quick unwind=6 block=64 mem=6 timeout=1200 twin
+// @harness c14_abinv_r1_n1_l3 tier=quick unwind=5 block=256 small=64 mem=6 timeout=1200
+// @harness c14_abinv_r1_n2_l2 tier=quick unwind=5 block=256 small=64 mem=10 timeout=1952
+// @harness c14_abinv_r1_n1_l3_reach tier=quick unwind=5 block=256 small=64 mem=6 timeout=1200 twin
+// @harness c14_abinv_r1_n2_l2_reach tier=thorough unwind=5 block=256 small=64 mem=9 timeout=2921 twin
+// @harness c14_abinv_r2_n1_l2 tier=thorough unwind=7 block=256 small=64 mem=30 timeout=3600 stretch
 // @harness c14_abinv_r2_n2_l2 tier=thorough unwind=8 block=256 small=64 mem=44 timeout=3600 stretch
 proofs! {
     c14_gcdx_a12 => gcdx_body::<12, 6>(false);
@@ -478,6 +481,8 @@ proofs! {
     c14_gcdx_a40 => gcdx_body::<40, 9>(false);
     c14_diag_1x2_e3 => diag_body::<1, 2, 3, 4>(false);
     c14_diag_2x1_e3 => diag_body::<2, 1, 3, 4>(false);
+    c14_diag_2x2_e1 => diag_body::<2, 2, 1, 3>(false);
+    c14_diag_2x2_e1_reach => diag_body::<2, 2, 1, 3>(true);
     c14_diag_2x2_e2 => diag_body::<2, 2, 2, 5>(false);
     c14_diag_2x2_e2_reach => diag_body::<2, 2, 2, 5>(true);
     c14_diag_2x2_e3 => diag_body::<2, 2, 3, 6>(false);
@@ -500,6 +505,7 @@ proofs! {
     c14_abinv_degenerate_reach => abinv_degenerate_body(true);
     c14_abinv_r1_n1_l3 => abinv_body::<1, 1, 3, 4>(false);
     c14_abinv_r1_n2_l2 => abinv_body::<1, 2, 2, 4>(false);
+    c14_abinv_r1_n1_l3_reach => abinv_body::<1, 1, 3, 4>(true);
     c14_abinv_r1_n2_l2_reach => abinv_body::<1, 2, 2, 4>(true);
     c14_abinv_r2_n1_l2 => abinv_body::<2, 1, 2, 4>(false);
     c14_abinv_r2_n2_l2 => abinv_body::<2, 2, 2, 5>(false);
